@@ -18,7 +18,8 @@ S = "sigpyproc/io/sigproc.py::"
 
 def outfile_obj():
     return Obj("OutFile", fields={"mode": Const("w+"), "nbytes": Int(0), "hdr_writes": Int(0), "hdr_after_data": Bool(),
-                                  "seeks": Int(0), "closed": Const(False), "elems": Chunks("real"), "ebits": Int()})
+                                  "seeks": Int(0), "closed": Const(False), "elems": Chunks("real"), "ebits": Int(),
+                                  "last_dtype": Str()})
 
 
 def writer_self(nbits=None):
@@ -38,7 +39,7 @@ def register(reg):
     c = Contract(F + "FileWriter.cwrite#bytes", props=["C04", "C20", "C07"],
                  params={"self": writer_self(), "arr": Arr("real", "f4")},
                  cases={"self.bitsinfo.nbits": [1, 2, 4, 8, 16, 32],
-                        "arr": [A("bv8", "u1"), A("real", "u2"), A("real", "f4"), A("real", "f8"), A("int", "i8")]},
+                        "arr": [A("bv8", "u1"), A("real", "u2"), A("real", "f4"), A("real", "f8"), A("int", "i8"), A("int", "i4")]},
                  lets={"nbits": "self.bitsinfo.nbits", "n0": "self.file_obj.nbytes"},
                  requires=["self.file_obj.ebits == 0 or self.file_obj.ebits == (8 if nbits < 8 else nbits)"],
                  modifies=["self.file_obj"],
@@ -47,6 +48,8 @@ def register(reg):
     # never another width than the header declares
     c.ensure("width", "self.file_obj.nbytes == n0 + ((len(arr) // (8 // nbits)) if nbits < 8 else len(arr) * (nbits // 8))")
     c.ensure("element size", "self.file_obj.ebits == (8 if nbits < 8 else nbits)")
+    # ... and of the declared sample TYPE: an array of the same width but another kind (int32 into a float32 file) is converted
+    c.ensure("element type", "self.file_obj.last_dtype == ('u1' if nbits <= 8 else ('u2' if nbits == 16 else 'f4'))")
     c.ensure("append-only", "self.file_obj.seeks == old(self.file_obj.seeks) and "
                             "self.file_obj.hdr_writes == old(self.file_obj.hdr_writes) and "
                             "len(self.file_obj.elems) >= old(len(self.file_obj.elems)) and "
@@ -74,7 +77,7 @@ def register(reg):
 
     class EmptyDict(Const):
         label = "dict"
-    c = Contract(H + "Header.prep_outfile#body", props=["C04", "C20", "C07"],
+    c = Contract(H + "Header.prep_outfile#body", props=["C04", "C20", "C07", "C08"],
                  params={"self": header_obj(None, {"tsamp": Real()}), "filename": Opaque(), "updates": Const(None),
                          "nbits": Int(), "rescale": Const(False)},
                  cases={"updates": [NoneV(None), EmptyDict(VDict({}))], "nbits": [NoneV(None), IntV()]},
@@ -82,6 +85,8 @@ def register(reg):
                  requires=["self.nbits in (1, 2, 4, 8, 16, 32)"],
                  inline_calls=[F + "FileBase._open"],
                  ret=Opaque())
+    # the header that is encoded declares the depth the writer packs at (C08: nbits equals the on-disk depth)
+    c.after_assign["new_hdr"] = [("header declares the written depth", "new_hdr.nbits == nbits")]
     c.ensure("depth", "result.bitsinfo.nbits == (self.nbits if is_none(nbits) else nbits)")
     c.ensure("header once, first", "result.file_obj.hdr_writes == 1 and not result.file_obj.hdr_after_data and "
                                    "result.file_obj.nbytes == 0 and len(result.file_obj.elems) == 0")
